@@ -16,7 +16,7 @@ ENGINE = 'E3-explicit-state-bfs'
 TECHNIQUE = ('explicit-state BFS over operation histories replayed on the real object, deduplicated by content + '
              'representation fingerprint, list-of-rows reference model checked through every observer in every state')
 RULE = ('initial arrays: lengths {(2,),(1,2),(2,2),(3,1,2)} x constructors {nested, flat+lengths, copy=False} x dtypes '
-        '{int64,float64}; alphabet: element / row / row-slice / (row,col-slice) / (slice,slice) / paired-list / mask assignment, '
+        '{int64,float64}; alphabet: element / row / row-slice / (row,col-slice) / (slice,slice) / (slice|row list, stepped col-slice with steps 2,-1,-2) / paired-list / mask assignment, '
         'append (rows | RaggedArray | single row), augmented arithmetic (rebinding), plus non-mutating operators checked in '
         'every state; BFS depth 3 (T: 4); state key = (rows, dtype, representation fingerprint); non-trivial = state at depth>=1 '
         'whose representation fingerprint differs from its initial array')
@@ -59,6 +59,10 @@ def alphabet(rows):
     ops.append(('int_slice', 0, None, 1, 56))
     ops.append(('slice_slice', None, None, 0, 1, 57))
     ops.append(('slice_slice', 0, 1, None, None, 58))
+    ops.append(('slice_step', None, None, None, None, -2, 59))      # a[:, ::-2] = v : stride anchored at each row's own end
+    ops.append(('slice_step', None, None, None, None, 2, 61))
+    ops.append(('slice_step', None, None, 1, None, -1, 62))
+    ops.append(('list_step', [n - 1, 0], None, None, -2, 63))
     cells = [(i, j) for i in range(n) for j in range(L[i])]
     ops.append(('pairs', [cells[0], cells[-1]], [41, 42]))
     ops.append(('pairs', [cells[-1]], [43]))
@@ -88,6 +92,12 @@ def apply_model(rows, op):
     elif k == 'slice_slice':
         for r in rows[op[1]:op[2]]:
             r[op[3]:op[4]] = op[5]
+    elif k == 'slice_step':
+        for r in rows[op[1]:op[2]]:
+            r[op[3]:op[4]:op[5]] = op[6]
+    elif k == 'list_step':
+        for i in op[1]:
+            rows[i][op[2]:op[3]:op[4]] = op[5]
     elif k == 'pairs':
         for (i, j), v in zip(op[1], op[2]):
             rows[i][j] = v
@@ -125,6 +135,10 @@ def apply_real(A, op):
         A[op[1], op[2]:op[3]] = op[4]
     elif k == 'slice_slice':
         A[op[1]:op[2], op[3]:op[4]] = op[5]
+    elif k == 'slice_step':
+        A[op[1]:op[2], op[3]:op[4]:op[5]] = op[6]
+    elif k == 'list_step':
+        A[list(op[1]), op[2]:op[3]:op[4]] = op[5]
     elif k == 'pairs':
         # negative ndarray index arrays: they are the caller's arguments and must not be rewritten
         n_rows = len(A.lengths)
